@@ -1,6 +1,7 @@
 package node
 
 import (
+	"bytes"
 	"context"
 	"database/sql"
 	"fmt"
@@ -655,8 +656,14 @@ func (d *Pegnetd) SnapshotPayouts(tx *sql.Tx, fLog *log.Entry, rates map[fat2.PT
 		return nil
 	}
 
+	// The list is built from a map, and its order assigns the payout indexes
+	// (and with them the dust): break ties by address so that every node
+	// computes the same order.
 	sort.Slice(list, func(i, j int) bool {
-		return list[i].PUSD < list[j].PUSD
+		if list[i].PUSD != list[j].PUSD {
+			return list[i].PUSD < list[j].PUSD
+		}
+		return bytes.Compare(list[i].Address[:], list[j].Address[:]) < 0
 	})
 
 	// Calculate payouts
